@@ -124,6 +124,21 @@ def detectStyle (d : Detect) : Option Style :=
 def detectStyleOld (d : Detect) : Option Style :=
   if d.forcedOld then some .old else detectStyle d
 
+/-- One observed run: `-old-config-style`, the kind of file (0 none, 1 parses as old style only, 2 as new style only,
+3 as both, 4 as neither), a deprecated flag present, and the style the tool used (`none` = it refused). -/
+structure DetectRow where
+  forced : Bool
+  file : Nat
+  deprecated : Bool
+  observed : Option Style
+deriving Repr
+
+def DetectRow.toDetect (r : DetectRow) : Detect :=
+  { forcedOld := r.forced, hasFile := r.file != 0, oldOk := r.file == 1 || r.file == 3, newOk := r.file == 2 || r.file == 3,
+    deprecatedFlag := r.deprecated }
+
+def detectRowOk (r : DetectRow) : Bool := r.observed == detectStyle r.toDetect
+
 /-! ### Key tables (TAB rows regenerated from the built binary) -/
 
 /-- One generate-target row: the list given to `-generate` and what `-output-config` reported
